@@ -277,11 +277,13 @@ CLAIMED = {
              "array, struct, function) compare with all six operators exactly as their addresses, a pointer-like "
              "cdata against anything else gives NotImplemented, integer cdata compare with integer cdata and with "
              "Python ints exactly as the Python values they convert to (through convert_to_object's contract), "
-             "integer cdata hash as that Python int and pointer-like cdata hash by address; two congruence lemmas "
-             "give a == b ==> hash(a) == hash(b).",
+             "float/double cdata compare with float/double cdata exactly as the Python floats they convert to (IEEE "
+             "754: -0.0 == 0.0, nan != nan), integer cdata hash as that Python int and pointer-like cdata hash by "
+             "address; two congruence lemmas give a == b ==> hash(a) == hash(b).",
         design_ref='DESIGN.md section 4 C17',
-        note=COMMON_NOTE + "T-API: PyObject_RichCompare / PyObject_Hash on int objects are functions of the values. "
-             "Float, char, complex and _Bool cdata go through the same dispatch but are outside the proved scope.",
+        note=COMMON_NOTE + "T-API: PyObject_RichCompare / PyObject_Hash on int objects are functions of the values, "
+             "PyObject_RichCompare on two float objects is the IEEE comparison. Float against int, char, complex, "
+             "long double and _Bool cdata go through the same dispatch but are outside the proved scope.",
         technique="contract-based deductive verification: dispatch contracts, VCs from clang's AST, z3/cvc5",
     ),
     'C22': dict(
@@ -289,13 +291,20 @@ CLAIMED = {
         text="The sequential half of the statement is verified on the four errno functions with the saved errno "
              "as ghost state: ffi.errno = v stores v (int range, else OverflowError and unchanged), ffi.errno reads "
              "the saved value, save_errno_only/restore_errno_only copy between C errno and the saved value and touch "
-             "nothing else. The thread half is reduced to a declaration check on the real build's AST: the saved "
-             "errno has thread-local storage.",
+             "nothing else. The brackets: fetch_global_var_addr (API-mode globals), invoke_callback and "
+             "cffi_call_python are under contract over a trace of 'foreign C code runs' / 'Python code runs' events "
+             "(C is entered with the saved errno, the errno it leaves becomes the saved errno; inside a callback "
+             "ffi.errno is the C caller's errno and the value at its end is what the C caller sees); the bracket "
+             "around ffi_call in cdata_call, the text the recompiler emits around a direct call and the export-table "
+             "entries behind _cffi_restore_errno / _cffi_save_errno are structural obligations on the clang / Python "
+             "AST. The thread half is reduced to a declaration check on the real build's AST: the saved errno has "
+             "thread-local storage.",
         design_ref='DESIGN.md section 4 C22',
         note=COMMON_NOTE + "No interleaving is explored: isolation between threads rests on the C semantics of "
-             "__thread (assumed). Not decided: that every call path brackets the C call with restore/save "
-             "(cdata_call, callbacks, cffi_call_python, global-variable fetch, generated wrappers).",
-        technique="contract-based deductive verification with ghost state + AST declaration check",
+             "__thread (assumed). Structural obligations decide the order of calls, not values. Assumed: the GIL "
+             "functions preserve the calling thread's errno; _update_cache_to_call_python runs no user code.",
+        technique="contract-based deductive verification with ghost state and an event trace + structural AST "
+                  "obligations + AST declaration check",
     ),
     'C37': dict(
         category='proof', engine='cvc+pyvc',
@@ -383,6 +392,29 @@ CLAIMED = {
              "by a witness obligation (initial state).",
         technique="contract-based deductive verification: representation invariant with ghost sets/ranks, ghost "
                   "assignments at exits and loop ends, quantified obligations; cvc (clang AST -> z3/cvc5)",
+    ),
+    'C14': dict(
+        category='proof',
+        text="general_invoke_callback -- what runs when C calls an ffi.callback() or an extern \"Python\" function -- is "
+             "verified over a trace of recorded conversions and calls: argument j (every j, proved for an arbitrary index) "
+             "is converted exactly once, from slot j of libffi's pointer array or of the wrapper's block of 8-byte slots "
+             "(long double / struct / union by address), as the j-th declared type, and stored as member j of the tuple "
+             "the Python function is called with, once, without keywords; its result is converted exactly once into "
+             "*result as the declared result type (with libffi's widening for callbacks); when a conversion fails, the "
+             "function raises or its result cannot be converted, *result holds the declared error value (every byte "
+             "of the info tuple's error bytes) when error handling starts, onerror -- if given -- is called exactly once "
+             "and what it returns (unless None or an exception) is converted into *result; on every path no exception "
+             "is left pending for the C caller. prepare_callback_info_tuple builds exactly (ctype, callable, error "
+             "bytes, onerror) with zero-filled error bytes of max(result size, ffi_arg) into which the error value is "
+             "converted once.",
+        design_ref='DESIGN.md section 4 C14',
+        note=COMMON_NOTE + "The conversions themselves are recorded here and specified elsewhere (C03 incl. the ffi_arg "
+             "widening, C04, C05, C15). Assumed: tuples and bytes objects are immutable while Python code runs; the "
+             "ctypes of the signature keep size and flags; _my_PyErr_WriteUnraisable leaves no exception pending. Not "
+             "under contract: libffi itself; the C wrapper the recompiler emits for extern \"Python\" (it fills the "
+             "slots whose decoding is proved). A bounded battery (replay only) exercises both routes on the real build.",
+        technique="contract-based deductive verification over a trace of recorded calls: ghost sequences assigned per loop "
+                  "iteration, arbitrary-index clauses; cvc (clang AST -> z3/cvc5)",
     ),
     'C21': dict(
         category='proof',
